@@ -62,6 +62,17 @@ def run(ctx):
             data, kind = files.malformed_adjacency(sub, e['recs'])
         else:
             data, kind = files.render_adjacency(sub, e['recs'])[0], 'ok'
+        # a weight token that asks for an astronomic number of parallel edges (huge, or negative: operator>>(size_t&) reads -3 as 2^64 - 3) is a
+        # RESOURCE request, not a memory-safety question: the binary is not run on it (the in-process readers above do parse such files)
+        def tame(line):
+            t = line.split(' ')
+            nz = [i for i, x in enumerate(t) if x.strip()]
+            for i in nz[2:]:
+                x = t[i].strip()
+                if (x.startswith('-') and x[1:].isdigit()) or (x.isdigit() and len(x) > 4):
+                    t[i] = '7'
+            return ' '.join(t)
+        data = '\n'.join(tame(l) for l in data.decode('latin-1').split('\n')).encode('latin-1')
         open(os.path.join(d, 'a.dat'), 'wb').write(data)
         K = sub.rint(2, 4)
         args = ['--a', 'a.dat', '--k', str(K), '--maxit', '5', '--s', '1', '--o', 'o']
